@@ -154,7 +154,7 @@ func Seed(cfg *Config, name string) []uint32 {
 		// (or candidates when pre-vote is off) with their requests to everybody still in flight
 		do(Ev(EvTimeout, 1, 0, 0))
 		do(Ev(EvTimeout, 2, 0, 0))
-	case "stepped-down-novote":
+	case "stepped-down-novote", "voted-then-restarted":
 		// replica 1 was leader of term T, replicas 2 and 3 both became candidates of term T+1 on their own
 		// timeouts; the old leader learnt T+1 from the reply to a heartbeat (check-quorum makes a
 		// candidate answer a stale heartbeat), so it is a follower of T+1 that has not voted yet, with
@@ -174,6 +174,13 @@ func Seed(cfg *Config, name string) []uint32 {
 		do(Ev(EvTick, 1, 0, 0))
 		deliverOne(func(m pb.Message) bool { return m.From == 1 && m.To == 2 && m.Type == pb.MsgHeartbeat })
 		deliverOne(func(m pb.Message) bool { return m.From == 2 && m.To == 1 && m.Type == pb.MsgAppResp })
+		if name == "voted-then-restarted" {
+			// ... it then grants its vote to replica 2, crashes at rest and restarts from what it persisted,
+			// with the answer to 2 and the request of the second candidate 3 still in flight
+			deliverOne(func(m pb.Message) bool { return m.From == 2 && m.To == 1 && m.Type == pb.MsgVote })
+			do(Ev(EvCrash, 1, 0, 0))
+			do(Ev(EvRestart, 1, 0, 0))
+		}
 	case "divergent", "stale-long":
 		// replica 1: old leader with an uncommitted entry; replica 2: leader of the next term
 		// with a different uncommitted entry at the same index; replica 3 has neither.
@@ -265,6 +272,7 @@ type Result struct {
 // RunSearch runs one BFS; prop filters which oracle's failures are reported.
 func RunSearch(s Search, prop string, workers int, deadline time.Time, col *ev.Collector) (Result, error) {
 	cfg := s.Cfg
+	cfg.Deciding = prop
 	prefix := Seed(&cfg, s.Seed)
 	// budgets are counted from the seed state on: measure what the prefix used
 	base := New(&cfg)
